@@ -181,6 +181,40 @@ func (s *ScriptedReader) finish() (int, error) {
 	return 0, s.doneErr
 }
 
+// ReentrantReader delivers Data one Read at a time (at most Chunk bytes) and,
+// after it has filled the caller's buffer but before it returns, runs Inner —
+// typically a complete ReadPacket on another stream. An io.Reader may do
+// whatever it likes inside Read; a decoder that parks bytes in package-level
+// scratch space sees them overwritten.
+type ReentrantReader struct {
+	Data  []byte
+	Chunk int
+	Inner func()
+	pos   int
+	depth int
+}
+
+func (r *ReentrantReader) Read(p []byte) (int, error) {
+	if r.pos >= len(r.Data) {
+		return 0, io.EOF
+	}
+	n := len(p)
+	if r.Chunk > 0 && n > r.Chunk {
+		n = r.Chunk
+	}
+	if n > len(r.Data)-r.pos {
+		n = len(r.Data) - r.pos
+	}
+	copy(p, r.Data[r.pos:r.pos+n])
+	r.pos += n
+	if r.Inner != nil && r.depth == 0 {
+		r.depth++
+		r.Inner()
+		r.depth--
+	}
+	return n, nil
+}
+
 // ---------------------------------------------------------------- writers
 
 // RecordingWriter records every Write call. With FailAt >= 0 it accepts
@@ -195,12 +229,21 @@ type RecordingWriter struct {
 	// ErrWhenFull: report Err also on the write that brings the total to
 	// exactly FailAt bytes, although that write was accepted in full.
 	ErrWhenFull bool
+	// Inner, when set, runs at the start of every Write before the bytes
+	// are looked at (a tee or logging writer that itself encodes packets).
+	Inner func()
+	depth int
 }
 
 func NewWriter() *RecordingWriter { return &RecordingWriter{FailAt: -1} }
 
 func (w *RecordingWriter) Write(p []byte) (int, error) {
 	w.Calls++
+	if w.Inner != nil && w.depth == 0 {
+		w.depth++
+		w.Inner()
+		w.depth--
+	}
 	if w.FailAt < 0 {
 		w.Buf = append(w.Buf, p...)
 		w.Accepted += len(p)
